@@ -133,11 +133,12 @@ func (c *choicesCase) GetLowestPriorityValue() int32 {
 	return result
 }
 
+// GetLowestPriorityValueOld returns the best priority the case had in the intended store before the transaction
 func (c *choicesCase) GetLowestPriorityValueOld() int32 {
 	result := int32(math.MaxInt32)
 	for _, cas := range c.elements {
-		if !cas.new && cas.value < result {
-			result = cas.value
+		if cas.oldValue < result {
+			result = cas.oldValue
 		}
 	}
 	return result
@@ -147,13 +148,17 @@ type choicesCaseElement struct {
 	name  string
 	value int32
 	new   bool
+	// oldValue is the best priority of the branch in the intended store as it is before the transaction,
+	// the old content of the intents of the transaction included
+	oldValue int32
 }
 
 func (c *choicesCaseElement) deepCopy() *choicesCaseElement {
 	return &choicesCaseElement{
-		name:  c.name,
-		value: c.value,
-		new:   c.new,
+		name:     c.name,
+		value:    c.value,
+		new:      c.new,
+		oldValue: c.oldValue,
 	}
 }
 
@@ -174,8 +179,9 @@ func (c *choiceCasesResolver) AddCase(name string, elements []string) *choicesCa
 	for _, e := range elements {
 		c.elementToCaseMapping[e] = name
 		c.cases[name].elements[e] = &choicesCaseElement{
-			name:  e,
-			value: int32(math.MaxInt32),
+			name:     e,
+			value:    int32(math.MaxInt32),
+			oldValue: int32(math.MaxInt32),
 		}
 	}
 	return c.cases[name]
@@ -191,6 +197,12 @@ func (c *choiceCasesResolver) SetValue(elemName string, v int32, new bool) {
 	actualCase := c.elementToCaseMapping[elemName]
 	c.cases[actualCase].elements[elemName].value = v
 	c.cases[actualCase].elements[elemName].new = new
+}
+
+// SetOldValue records the best priority the branch of the element has in the intended store before the transaction
+func (c *choiceCasesResolver) SetOldValue(elemName string, v int32) {
+	actualCase := c.elementToCaseMapping[elemName]
+	c.cases[actualCase].elements[elemName].oldValue = v
 }
 
 // GetBestCaseName returns the name of the case, that has the highes priority
